@@ -239,6 +239,17 @@ def interleave(sep, items):
     return out
 
 
+def wf_chunks_any(chunks):
+    """no empty chunk, neighbours differ in colour (chunk list of any length)"""
+    n = len(chunks)
+    return (all(len(c.text) > 0 for c in chunks)
+            and all(chunks[i].c_prefix != chunks[i + 1].c_prefix for i in range(n - 1)))
+
+
+TEXT_MODELS = {k: FOLD_MODELS[k] for k in ('offset', 'total', 'plain', 'plain_upto')}
+COLOR_MODELS = dict(TEXT_MODELS, color_at=FOLD_MODELS['color_at'])
+
+
 def ANYCHUNKS():
     return T.symobjlist('ak.color:_CHTextChunk', c_prefix=T.str, text=T.str, c_suffix=T.str)
 
@@ -281,38 +292,38 @@ UNBOUNDED_CONTRACTS = [
              },
              result_spec=T.custom('(int, int) | (None, None)', _chunk_pos_result), eager_ensures=True,
              invariants={0: {'inv': "position == old(position) - offset(self.chunks, __i) and position >= 0"}},
-             symlist_models=FOLD_MODELS,
+             symlist_models=TEXT_MODELS,
              raises={}, modifies=[]),
     Contract(M, 'CHText.plain_text', name='CHText.plain_text/any_length', prop=PROP, spec_globals=G, level='top',
              params={'self': T.one_of(ANYTEXT())}, requires=[],
              ensures={'text': "result == plain(self.chunks)"},
-             symlist_models=FOLD_MODELS, raises={}, modifies=[]),
+             symlist_models=TEXT_MODELS, raises={}, modifies=[]),
     Contract(M, 'CHText.__str__', name='CHText.__str__/any_length', prop=PROP, spec_globals=G, level='top',
              params={'self': T.one_of(ANYTEXT())}, requires=[],
              ensures={'rendering': "result == rendered(self.chunks)"},
              symlist_models=FOLD_MODELS, raises={}, modifies=[]),
     Contract(M, 'CHText.__len__', name='CHText.__len__/any_length', prop=PROP, spec_globals=G, level='top',
              params={'self': T.one_of(ANYTEXT())}, requires=["wf_any(self)"],
-             ensures={'len': "result == len(plain(self.chunks))"},
-             symlist_models=FOLD_MODELS, raises={}, modifies=[]),
+             ensures={'len': "result == len(plain(self.chunks))"}, result_spec=T.int, eager_ensures=True,
+             symlist_models=TEXT_MODELS, raises={}, modifies=[]),
     Contract(M, 'CHText._append_chunk', name='CHText._append_chunk/any_length', prop=PROP, spec_globals=G, level='top',
              params={'self': T.one_of(ANYTEXT()), 'chunk': CHUNK(), 'p': T.int},      # p: ghost - an arbitrary position
              requires=["wf_any(self)"],
              ensures=appended('chunk.text', 'chunk.c_prefix'),
              result_spec=T.none, havoc=HAVOC_TEXT,
-             symlist_models=FOLD_MODELS, raises={}, modifies=['self.chunks', 'self.scrlen']),
+             symlist_models=COLOR_MODELS, raises={}, modifies=['self.chunks', 'self.scrlen']),
     Contract(M, 'CHText.__iadd__', name='CHText.__iadd__/chunk/any_length', prop=PROP, spec_globals=G, level='top',
              havoc=HAVOC_TEXT, result_spec=_RET_SELF,
              params={'self': T.one_of(ANYTEXT()), 'other': CHUNK(), 'p': T.int},
              requires=["wf_any(self)"],
              ensures=appended('other.text', 'other.c_prefix', returns_self="result is self"),
-             symlist_models=FOLD_MODELS, raises={}, modifies=['self.chunks', 'self.scrlen']),
+             symlist_models=COLOR_MODELS, raises={}, modifies=['self.chunks', 'self.scrlen']),
     Contract(M, 'CHText.__iadd__', name='CHText.__iadd__/str/any_length', prop=PROP, spec_globals=G, level='top',
              havoc=HAVOC_TEXT, result_spec=_RET_SELF,
              params={'self': T.one_of(ANYTEXT()), 'other': T.str, 'p': T.int},
              requires=["wf_any(self)"],
              ensures=appended('other', '""', returns_self="result is self"),
-             symlist_models=FOLD_MODELS, raises={}, modifies=['self.chunks', 'self.scrlen']),
+             symlist_models=COLOR_MODELS, raises={}, modifies=['self.chunks', 'self.scrlen']),
     Contract(M, 'CHText.__iadd__', name='CHText.__iadd__/text/any_length', prop=PROP, spec_globals=G, level='top',
              havoc=HAVOC_TEXT, result_spec=_RET_SELF,
              params={'self': T.one_of(ANYTEXT()), 'other': T.one_of(ANYTEXT()), 'p': T.int},
@@ -332,7 +343,7 @@ UNBOUNDED_CONTRACTS = [
                                     "(color_at(old(self.chunks), p) if p < old(self.scrlen) else "
                                     "color_at(other.chunks, p - old(self.scrlen))))",
                              'modifies': HAVOC_TEXT}},
-             symlist_models=FOLD_MODELS, raises={}, modifies=['self.chunks', 'self.scrlen']),
+             symlist_models=COLOR_MODELS, raises={}, modifies=['self.chunks', 'self.scrlen']),
     Contract(M, 'CHText.__init__', name='CHText.__init__/any_length', prop=PROP, spec_globals=G, level='top',
              params={'self': T.obj('ak.color:CHText'),
                      'parts': T.one_of(T.tuple(), T.tuple(ANYTEXT()), T.tuple(T.str, ANYTEXT()), T.tuple(ANYTEXT(), CHUNK()),
@@ -345,9 +356,25 @@ UNBOUNDED_CONTRACTS = [
                  'len': "self.scrlen == len(text_of_parts(parts))",
                  'colors': "not (0 <= p < self.scrlen) or color_at(self.chunks, p) == color_in_parts(parts, p)",
              },
-             result_spec=T.none, havoc=HAVOC_TEXT, symlist_models=FOLD_MODELS, raises={},
+             result_spec=T.none, havoc=HAVOC_TEXT, symlist_models=COLOR_MODELS, raises={},
+             modifies=['self.chunks', 'self.scrlen']),
+    Contract(M, 'CHText.__init__', name='CHText.__init__/chunks/any_length', prop=PROP, spec_globals=G, level='top',
+             params={'self': T.obj('ak.color:CHText'), 'parts': ANYCHUNKS(), 'p': T.int},      # CHText(*chunks)
+             requires=[],
+             ensures={
+                 'wf': "wf_any(self)",
+                 'text': "plain(self.chunks) == plain(parts)",
+                 'len': "self.scrlen == total(parts)",
+                 'colors': "not (0 <= p < self.scrlen) or color_at(self.chunks, p) == color_at(parts, p)",
+             },
+             invariants={0: {'inv': "wf_any(self) and plain(self.chunks) == plain_upto(parts, __i) "
+                                    "and self.scrlen == offset(parts, __i) "
+                                    "and (not (0 <= p < self.scrlen) or color_at(self.chunks, p) == color_at(parts, p))",
+                             'modifies': HAVOC_TEXT, 'same_object': ['self']}},
+             result_spec=T.none, havoc=HAVOC_TEXT, symlist_models=COLOR_MODELS, raises={},
              modifies=['self.chunks', 'self.scrlen']),
     Contract(M, 'CHText.__add__', name='CHText.__add__/any_length', prop=PROP, spec_globals=G, level='top',
+             result_spec=ANYTEXT(),
              params={'self': T.one_of(ANYTEXT()), 'other': T.one_of(ANYTEXT(), T.str, CHUNK()), 'p': T.int},
              requires=["wf_any(self)"],
              ensures={
@@ -357,7 +384,7 @@ UNBOUNDED_CONTRACTS = [
                  'colors': "not (0 <= p < result.scrlen) or color_at(result.chunks, p) == color_in_parts((self, other), p)",
                  'fresh': "result is not self and result.chunks is not self.chunks",
              },
-             symlist_models=FOLD_MODELS, raises={}, modifies=[]),
+             symlist_models=COLOR_MODELS, raises={}, modifies=[]),
     Contract(M, 'CHText.__radd__', name='CHText.__radd__/any_length', prop=PROP, spec_globals=G, level='top',
              params={'self': T.one_of(ANYTEXT()), 'other': T.one_of(T.str, CHUNK()), 'p': T.int},
              requires=["wf_any(self)"],
@@ -366,7 +393,7 @@ UNBOUNDED_CONTRACTS = [
                  'text': "plain(result.chunks) == text_of(other) + plain(self.chunks)",
                  'colors': "not (0 <= p < result.scrlen) or color_at(result.chunks, p) == color_in_parts((other, self), p)",
              },
-             symlist_models=FOLD_MODELS, raises={}, modifies=[]),
+             symlist_models=COLOR_MODELS, raises={}, modifies=[]),
     Contract(M, 'CHText.join', name='CHText.join/any_length', prop=PROP, spec_globals=G, level='top',
              params={'self': T.one_of(ANYTEXT()),
                      'iterable': T.one_of(T.list(), T.list(ANYTEXT()), T.list(T.str, ANYTEXT()), T.list(ANYTEXT(), CHUNK(), T.str)),
@@ -378,7 +405,38 @@ UNBOUNDED_CONTRACTS = [
                  'colors': "not (0 <= p < result.scrlen) or color_at(result.chunks, p) == "
                            "color_in_parts(interleave(self, iterable), p)",
              },
-             symlist_models=FOLD_MODELS, raises={}, modifies=[]),
+             symlist_models=COLOR_MODELS, raises={}, modifies=[]),
+    Contract(M, 'CHText.__getitem__', name='CHText.__getitem__/slice/any_length', prop=PROP, spec_globals=G, level='top',
+             result_spec=ANYTEXT(),
+             params={'self': T.one_of(ANYTEXT()),
+                     'index': T.one_of(*[_slice_spec(a, b) for a in (False, True) for b in (False, True)])},
+             requires=["wf_any(self)"],
+             ensures={
+                 'text': "plain(result.chunks) == plain(self.chunks)[index.start:index.stop]",
+                 'len': "result.scrlen == max(0, norm_hi(index.stop, self.scrlen) - norm_lo(index.start, self.scrlen))",
+                 'wf': "wf_any(result)",
+             },
+             invariants={0: {
+                 'inv': "0 <= start_pos < self.scrlen and 0 <= chunk_id < len(self.chunks) and remain_len > 0 "
+                        "and remain_len == end_pos - start_pos - total(new_chunks) "
+                        "and start_pos + total(new_chunks) + len(cur_chunk.text) == offset(self.chunks, chunk_id + 1) "
+                        "and plain_upto(self.chunks, chunk_id + 1) == "
+                        "plain(self.chunks)[:start_pos] + plain(new_chunks) + cur_chunk.text "
+                        "and len(cur_chunk.text) > 0 and cur_chunk.c_prefix == self.chunks[chunk_id].c_prefix "
+                        "and wf_chunks_any(new_chunks) "
+                        "and (len(new_chunks) == 0 or new_chunks[-1].c_prefix != cur_chunk.c_prefix)",
+                 'havoc': {'new_chunks': ANYCHUNKS(), 'cur_chunk': CHUNK()}}},
+             symlist_models=TEXT_MODELS, raises={}, modifies=[], max_paths=20000),
+    Contract(M, 'CHText.fixed_len', name='CHText.fixed_len/any_length', prop=PROP, spec_globals=G, level='top',
+             params={'self': T.one_of(ANYTEXT()), 'desired_len': T.int},
+             requires=["wf_any(self)", "desired_len >= 0"],
+             ensures={
+                 'len': "result.scrlen == desired_len",
+                 'text': "plain(result.chunks) == (plain(self.chunks)[:desired_len] if desired_len <= self.scrlen "
+                         "else plain(self.chunks) + ' ' * (desired_len - self.scrlen))",
+                 'wf': "wf_any(result)",
+             },
+             symlist_models=TEXT_MODELS, raises={}, modifies=[]),
     Contract(M, 'CHText.__getitem__', name='CHText.__getitem__/index/any_length', prop=PROP, spec_globals=G, level='top',
              params={'self': T.one_of(ANYTEXT()), 'index': T.int},
              requires=["self.scrlen == total(self.chunks)"],
@@ -390,7 +448,7 @@ UNBOUNDED_CONTRACTS = [
                  'in_range': "-self.scrlen <= index < self.scrlen",
              },
              raises={'index_error': ((IndexError,), "not (-self.scrlen <= index < self.scrlen)")},
-             symlist_models=FOLD_MODELS,
+             symlist_models=COLOR_MODELS,
              modifies=[]),
 ]
 
@@ -555,14 +613,28 @@ BOUNDED_SYMBOLIC = {'CHText.join/any_length': "at most 3 joined items (str / chu
                     'CHText.__eq__/text': 2, 'CHText.__eq__/str': 3, 'CHText.fixed_len': 2, 'CHText._get_chunk_pos': 3, 'CHText.__getitem__/index': 3, 'CHText.__getitem__/slice': 3}
 _IADD_ANY = ['CHText.__iadd__/chunk/any_length', 'CHText.__iadd__/str/any_length', 'CHText.__iadd__/text/any_length']
 USES = {'CHText.__getitem__/index/any_length': ['CHText._get_chunk_pos/any_length'],
+        'CHText.__getitem__/slice/any_length': ['CHText._get_chunk_pos/any_length', 'CHText.__init__/chunks/any_length',
+                                                'CHText.__init__/any_length'],
         'CHText.__iadd__/chunk/any_length': ['CHText._append_chunk/any_length'],
         'CHText.__iadd__/str/any_length': ['CHText._append_chunk/any_length'],
         'CHText.__iadd__/text/any_length': ['CHText._append_chunk/any_length'],
-        'CHText.__init__/any_length': _IADD_ANY, 'CHText.__add__/any_length': _IADD_ANY + ['CHText.__init__/any_length'],
+        'CHText.fixed_len/any_length': ['CHText.__getitem__/slice/any_length', 'CHText.__add__/any_length', 'CHText.__len__/any_length'],
+        'CHText.__init__/any_length': _IADD_ANY, 'CHText.__init__/chunks/any_length': _IADD_ANY, 'CHText.__add__/any_length': _IADD_ANY + ['CHText.__init__/any_length'],
         'CHText.__radd__/any_length': ['CHText.__init__/any_length'],
         'CHText.join/any_length': _IADD_ANY + ['CHText.__init__/any_length']}
 ASSUMED_LIBRARY = []
 CANARIES = [
+    {'name': 'anylen_slice_one_char_too_many', 'module': M, 'function': 'CHText.__getitem__',
+     'verify': 'CHText.__getitem__/slice/any_length',
+     'old': 'new_chunks.append(cur_chunk.clone(cur_chunk.text[:remain_len]))',
+     'new': 'new_chunks.append(cur_chunk.clone(cur_chunk.text[:remain_len + 1]))',
+     'combos': ['slice(None:int)'], 'unproved_is_enough': True,
+     'expect': 'C08.CHText.__getitem__/slice/any_length.text'},
+    {'name': 'anylen_slice_skips_a_chunk', 'module': M, 'function': 'CHText.__getitem__',
+     'verify': 'CHText.__getitem__/slice/any_length',
+     'old': 'chunk_id += 1', 'new': 'chunk_id += 2',
+     'combos': ['slice(int:None)'], 'unproved_is_enough': True,
+     'expect': 'C08.CHText.__getitem__/slice/any_length.loop0.inv_preserved'},
     {'name': 'anylen_iadd_skips_first_chunk_of_operand', 'module': M, 'function': 'CHText.__iadd__',
      'verify': 'CHText.__iadd__/text/any_length',
      'old': 'self._append_chunk(part)', 'new': 'self._append_chunk(part.clone(part.text + "x"))',
